@@ -33,6 +33,8 @@ IsErr(r) == r.k = "E"
 IsAmb(r) == r.k = "M"
 Bad(r)   == r.k \in {"E", "M"}
 
+NonVoidSeq(s) == SelectSeq(s, LAMBDA x : ~IsVoid(x))
+
 LastKind(h) == IF h.path = <<>> THEN "root" ELSE h.path[Len(h.path)].k
 
 (***************************************************************************)
@@ -213,6 +215,13 @@ NormHunk(h) ==
   [h EXCEPT !.remove = SelectSeq(h.remove, LAMBDA x : ~IsVoid(x)),
             !.add    = IF h.merge THEN h.add ELSE SelectSeq(h.add, LAMBDA x : ~IsVoid(x))]
 NormDiff(d) == [i \in DOMAIN d |-> NormHunk(d[i])]
+(* hunks compared under a reading of arrays (values a set-mode diff carries are sets) *)
+CanonHunk(h, rd) ==
+  [h EXCEPT !.before = [i \in DOMAIN h.before |-> Canon(h.before[i], rd)],
+            !.remove = [i \in DOMAIN h.remove |-> Canon(h.remove[i], rd)],
+            !.add    = [i \in DOMAIN h.add |-> Canon(h.add[i], rd)],
+            !.after  = [i \in DOMAIN h.after |-> Canon(h.after[i], rd)]]
+CanonDiff(d, rd) == [i \in DOMAIN d |-> CanonHunk(NormHunk(d[i]), rd)]
 
 (***************************************************************************)
 (* Frame: everything outside the container a hunk addresses is unchanged.  *)
